@@ -211,6 +211,12 @@ def run(ctx):
                 run.finding(Finding(R3, rt, "duplicate look-up keyed by the slate id / duplicate-receive test not found before the effects", site=f.loc()))
             else:
                 run.finding(Finding(R3, rt, "duplicate delivery not refused before effects", site=info.get("site", f.loc())))
+        # a payment that was confirmed and then reorganised away keeps its entry as TxReverted until it is mined again:
+        # a further delivery of its slate in that window is a second delivery all the same (seed C07m)
+        h, info = replay_guard(ctx, R3, f, "TxReverted")
+        run.instance(R3, {"fn": "foreign::receive_tx", "obligation": "an existing TxReverted entry for this slate id leads to Err without any effect", "found": info}, held=h)
+        if not h:
+            run.finding(Finding(R3, rt, "a second delivery of a slate whose payment was confirmed and reorganised away (entry TxReverted) is accepted: a second output and a second receive entry for one slate", site=info.get("site", f.loc())))
         c.require_pass(ctx, R3, rt, c.LW + "slate::Slate::remove_other_sigdata", ("okret",), "Ok return passes remove_other_sigdata Ok (only the recipient's participant entry leaves)")
         for fld in ("amount", "fee_fields"):
             asg = vf.field_assignments(f, c.LW + "slate::Slate", fld)
